@@ -568,7 +568,8 @@ pub fn worker_main(args: &Args, w: usize, n: usize) -> ! {
         let dir = scratch.sub(&format!("img{ii}"));
         let img = load_image(&hooks, args.seed, &name, &logical, &dir);
         let n_listed = logical.n_packs as usize + 1;
-        let total = histories_per_image(args.tier);
+        // the very large manifest gets fewer histories (every step re-reads ~0.5 MB)
+        let total = if n_listed > 1000 { 160 } else { histories_per_image(args.tier) };
         println!(
             "{}",
             json!({"t":"image","ii":ii,"image":img.name,"desc":img.desc,"histories":total,"listed_packs":n_listed,
